@@ -526,7 +526,11 @@ class HierarchyElement(DiagLayer):
         without a specified protocol are taken as fallbacks...
 
         """
-        com_params_dict: Dict[Tuple[str, Optional[str]], ComparamInstance] = {}
+        # the communication parameters are identified by the object
+        # they refer to (*not* just by the local ID of this object,
+        # as the same local ID may be used by different comparam
+        # subsets) and the protocol which they apply to.
+        com_params_dict: Dict[Tuple[OdxLinkId, Optional[str]], ComparamInstance] = {}
 
         # Look in parent refs for inherited communication
         # parameters. First fetch the communication parameters from
@@ -536,11 +540,11 @@ class HierarchyElement(DiagLayer):
             if not isinstance(parent_layer, HierarchyElement):
                 continue
             for cp in parent_layer._compute_available_commmunication_parameters():
-                com_params_dict[(cp.spec_ref.ref_id, cp.protocol_snref)] = cp
+                com_params_dict[(cp.spec.odx_id, cp.protocol_snref)] = cp
 
         # finally, handle the locally defined communication parameters
         for cp in getattr(self.hierarchy_element_raw, "comparam_refs", []):
-            com_params_dict[(cp.spec_ref.ref_id, cp.protocol_snref)] = cp
+            com_params_dict[(cp.spec.odx_id, cp.protocol_snref)] = cp
 
         return list(com_params_dict.values())
 
